@@ -43,4 +43,48 @@ func catalog.(Course).String(c) (s)
   props C20
   call fmt.Sprintf requires format: (c.Magnetic ==> $0 == "%sM") && (!c.Magnetic ==> $0 == "%sT")
   call fmt.Sprintf requires digits: len($1) == 1 && len(unbox($1[0])) == 3 && unbox($1[0])[0] == c.Digits[0] && unbox($1[0])[1] == c.Digits[1] && unbox($1[0])[2] == c.Digits[2]
+
+# PosReport.Message: optional lines appear iff their field is set, with the
+# right labels, in a message that satisfies Validate (To=QTH, subject, body)
+ghost var gDateLine bool
+ghost var gLatLine bool
+ghost var gLonLine bool
+ghost var gSpeedLine bool
+ghost var gCourseLine bool
+ghost var gCommentLine bool
+ghost var gSubjectSet bool
+ghost var gToSet bool
+ghost var gBodySet bool
+
+func catalog.(PosReport).Message(p, mycall) (m)
+  props C20
+  requires lat-range: p.Lat != nil ==> !isNaN(*p.Lat) && fplit("-90") <= *p.Lat && *p.Lat <= fplit("90")
+  requires lon-range: p.Lon != nil ==> !isNaN(*p.Lon) && fplit("-180") <= *p.Lon && *p.Lon <= fplit("180")
+  call fmt.Fprintf#0 requires date: $1 == "DATE: %s\r\n"
+  call fmt.Fprintf#0 set gDateLine := true
+  call fmt.Fprintf#1 requires lat: $1 == "LATITUDE: %s\r\n" && p.Lat != nil && p.Lon != nil
+  call fmt.Fprintf#1 set gLatLine := true
+  call fmt.Fprintf#2 requires lon: $1 == "LONGITUDE: %s\r\n" && p.Lat != nil && p.Lon != nil
+  call fmt.Fprintf#2 set gLonLine := true
+  call fmt.Fprintf#3 requires speed: $1 == "SPEED: %f\r\n" && p.Speed != nil
+  call fmt.Fprintf#3 set gSpeedLine := true
+  call fmt.Fprintf#4 requires course: $1 == "COURSE: %s\r\n" && p.Course != nil
+  call fmt.Fprintf#4 set gCourseLine := true
+  call fmt.Fprintf#5 requires comment: $1 == "COMMENT: %s\r\n" && len(p.Comment) > 0
+  call fmt.Fprintf#5 set gCommentLine := true
+  call catalog.decToMinDec#0 requires lat-arg: same($0, *p.Lat) && $1
+  call catalog.decToMinDec#1 requires lon-arg: same($0, *p.Lon) && !$1
+  call fbb.NewMessage requires type: $0 == "Position Report"
+  call fbb.(*Message).SetSubject requires subject: $1 == "POSITION REPORT"
+  call fbb.(*Message).SetSubject set gSubjectSet := true
+  call fbb.(*Message).AddTo requires to: len($1) == 1 && $1[0] == "QTH"
+  call fbb.(*Message).AddTo set gToSet := true
+  call fbb.(*Message).SetBody set gBodySet := true
+  ensures nonnil: m != nil
+  ensures date-line: gDateLine
+  ensures lat-iff: (gLatLine <==> (p.Lat != nil && p.Lon != nil)) && (gLonLine <==> (p.Lat != nil && p.Lon != nil))
+  ensures speed-iff: gSpeedLine <==> p.Speed != nil
+  ensures course-iff: gCourseLine <==> p.Course != nil
+  ensures comment-iff: gCommentLine <==> len(p.Comment) > 0
+  ensures valid: gSubjectSet && gToSet && gBodySet
 @*/
